@@ -61,6 +61,7 @@ class Config:
     impl: str = "casadi"  # numpy / casadi
     init: str = "engine"  # engine / user
     nbr_vsl: bool = False  # neighbour links are LinkWithVsl
+    history: tuple = ()  # earlier Network.step calls on the same objects: ((flags, engine_arg), ...)
 
     def label(self) -> str:
         o = self.u_origin or "-"
@@ -73,6 +74,7 @@ class Config:
             f"{' delta' if self.delta else ''}{' phi' if self.phi else ''}"
             f"{' flags=' + ','.join(sorted(f.replace('positive_', '') for f in self.flags)) if self.flags else ''}"
             f" engine={self.engine_arg}/{self.impl} init={self.init}"
+            + (f" after {len(self.history)} earlier step(s) with other options" if self.history else "")
         )
 
     def has_queue(self) -> bool:
@@ -363,7 +365,23 @@ class World:
         if isinstance(v, AbsView):
             if v.kind == "links":
                 return [(self.U, self.D, self.SELF)]
-            raise it.err(node, "iteration over a per-node view without a node")
+            return None
+        return None
+
+    def all_links_collection(self, it, node):
+        if getattr(self, "_anylink", None) is None:
+            X = Obj(NODE, "X", kind="node")
+            l = self._link("ANY*", LINK)
+            l.attrs["states"] = {"rho": self._state("rho", l), "v": self._state("v", l)}
+            self._anylink = Coll("All", None, "many", [(X, X, l)], "AllLinks")
+        it.event("iterates-all-links", node,
+                 "a link view is iterated without a node: every link of the network takes part, not only "
+                 "the links entering / leaving this node")
+        return self._anylink
+
+    def _unused(self, it, v, node):
+        if False:
+            pass
         return None
 
     def on_setattr(self, it, o, attr, v, node):
@@ -603,8 +621,14 @@ class World:
     def _var(self, it, f, args, kwargs, node):
         tv = self._var_symbol(it, f, args, kwargs, node)
         eng = f.self_obj
+        for d in f.fi.node.decorator_list:
+            dn = ast.unparse(d.func if isinstance(d, ast.Call) else d).split(".")[-1]
+            if dn in ("cache", "lru_cache", "cached_property"):
+                it.event("memoised", node, f"`{f.fi.qualname}` is memoised (@{dn}): initialising an element again "
+                                          "returns the old variables instead of new ones", data=f.fi.qualname)
         if getattr(self, "class_overlay", None) is None or not isinstance(eng, Obj):
             return tv
+        self._created = 0
         # interpret the real body to learn what the engine does with the fresh array
         self._pending_var = (tv, eng)
         try:
@@ -614,6 +638,10 @@ class World:
             self._pending_var = None
         if not isinstance(out, TV) or out.t != tv.t:
             raise it.err(node, "engine.var does not return the array/symbol it creates")
+        if self._created != 1:
+            it.event("var-not-fresh", node,
+                     f"`{f.fi.qualname}` returned a variable without creating it ({self._created} creations): "
+                     "variables are reused across calls")
         return TV(tv.t, out.rank, tv.fresh, tv.origin)
 
     def _run_var_body(self, it, f, args, kwargs, node):
@@ -640,6 +668,7 @@ class World:
         if pend is None:
             raise it.err(node, f"{name} outside engine.var is not modelled")
         tv, eng = pend
+        self._created = getattr(self, "_created", 0) + 1
         if name.startswith("casadi."):
             kind = name.split(".")[1]
             nominal = eng.attrs.get("__nominal__")
@@ -697,8 +726,17 @@ def run_config(prog: Program, cfg: Config, decisions=(), entry="network") -> Res
     it = Interp(prog, w, lib_semantics=cfg.impl)
     raised = None
     error = None
+    n_prims_before = 0
     try:
         step = prog.function("sym_metanet.network", "Network.step")
+        for hflags, hengine in cfg.history:
+            kwargs = {f: (f in hflags) for f in FLAGS}
+            kwargs.update(w.other)
+            kwargs["init_conditions"] = w.init_conditions
+            kwargs["engine"] = w.EXPL if hengine == "explicit" else None
+            it.call_function(FuncV(step, w.net, defcls=NET), [], kwargs)
+        n_prims_before = len(w.prims)
+        n_events_before = len(it.events)
         kwargs = {f: (f in cfg.flags) for f in FLAGS}
         kwargs.update(w.other)
         kwargs["init_conditions"] = w.init_conditions
@@ -706,6 +744,11 @@ def run_config(prog: Program, cfg: Config, decisions=(), entry="network") -> Res
         it.call_function(FuncV(step, w.net, defcls=NET), [], kwargs)
     except Raised as r:
         raised = r
+    if cfg.history:
+        # dispatch / default-engine events of the earlier steps are not the final step's
+        keep = ("current-engine",)
+        it.events = [e for i, e in enumerate(it.events) if not (i < locals().get("n_events_before", 0) and e.kind in keep)]
+        w.prims = w.prims[n_prims_before:]
     outputs, states = {}, {}
     for role, o in w.roles.items():
         ns = o.attrs.get("next_states")
